@@ -521,6 +521,16 @@ fn engine_s(terms: &[Term], checks: u32, tier: Tier, kernels: &[&str], all_masks
                         out.push(item(mc, Plan::pb(if th { 2 } else { 1 }), checks));
                     }
                 }
+                // longer inputs: whole chunks rejected before, between and after chunks with survivors
+                for (w, cs) in [(2usize, CsSet::N(2)), (2, CsSet::N(3)), (3, CsSet::N(2))] {
+                    let c = par(case(src, 6, ch, terms[0]), w, cs);
+                    for mc in all_first_filter_masks(&c, 6) {
+                        out.push(item(mc.clone(), Plan::base_rr(), checks));
+                        if th || w == 2 {
+                            out.push(item(mc, Plan::pb(1), checks));
+                        }
+                    }
+                }
             }
         }
     }
@@ -680,6 +690,18 @@ pub fn items(prop: &str, tier: Tier) -> Vec<Item> {
                             let c = par(case(src, 4, ch, Term::Reduce), 2, cs);
                             for mc in all_first_filter_masks(&c, 4) {
                                 out.push(item(mc, Plan::pb(if th { 2 } else { 1 }), CK_RESULT));
+                            }
+                            // longer inputs: whole chunks rejected before, between and after chunks with survivors
+                            if cs != CsSet::N(1) {
+                                for w in [2usize, 3] {
+                                    let c6 = par(case(src, 6, ch, Term::Reduce), w, cs);
+                                    for mc in all_first_filter_masks(&c6, 6) {
+                                        out.push(item(mc.clone(), Plan::base_rr(), CK_RESULT));
+                                        if th || w == 2 {
+                                            out.push(item(mc, Plan::pb(1), CK_RESULT));
+                                        }
+                                    }
+                                }
                             }
                         }
                         let c3 = par(case(src, 6, ch, Term::Reduce), 3, cs);
